@@ -25,6 +25,12 @@ fn main() {
         }
         return;
     }
+    if args[0] == "--e2e-child" {
+        if args.len() != 3 {
+            usage();
+        }
+        std::process::exit(vlib::e2e::child_main(&args[1], &args[2]));
+    }
     if args[0] == "--worker" {
         // --worker ID tier sub idx n
         if args.len() != 6 {
